@@ -513,7 +513,11 @@ impl<'l, Data> EventLoop<'l, Data> {
         let events = {
             let poll = self.handle.inner.poll.borrow();
             loop {
+                #[cfg(calloop_verif)]
+                crate::verif::yield_point("loop.poll");
                 let result = poll.poll(timeout);
+                #[cfg(calloop_verif)]
+                crate::verif::yield_point("loop.polled");
 
                 match result {
                     Ok(events) => break events,
@@ -737,9 +741,15 @@ impl<'l, Data> EventLoop<'l, Data> {
     {
         let timeout = timeout.into();
         self.signals.stop.store(false, Ordering::Release);
+        #[cfg(calloop_verif)]
+        crate::verif::yield_point("run.reset");
         while !self.signals.stop.load(Ordering::Acquire) {
+            #[cfg(calloop_verif)]
+            crate::verif::yield_point("run.checked");
             self.dispatch(timeout, data)?;
             cb(data);
+            #[cfg(calloop_verif)]
+            crate::verif::yield_point("run.iter_end");
         }
         Ok(())
     }
@@ -766,13 +776,21 @@ impl<'l, Data> EventLoop<'l, Data> {
         impl Wake for EventLoopWaker {
             fn wake(self: Arc<Self>) {
                 // Set the waker.
+                #[cfg(calloop_verif)]
+                crate::verif::yield_point("bo.wake.store");
                 self.0.signal.future_ready.store(true, Ordering::Release);
+                #[cfg(calloop_verif)]
+                crate::verif::yield_point("bo.wake.notify");
                 self.0.notifier.notify().ok();
             }
 
             fn wake_by_ref(self: &Arc<Self>) {
                 // Set the waker.
+                #[cfg(calloop_verif)]
+                crate::verif::yield_point("bo.wake.store");
                 self.0.signal.future_ready.store(true, Ordering::Release);
+                #[cfg(calloop_verif)]
+                crate::verif::yield_point("bo.wake.notify");
                 self.0.notifier.notify().ok();
             }
         }
@@ -793,9 +811,15 @@ impl<'l, Data> EventLoop<'l, Data> {
 
         self.signals.stop.store(false, Ordering::Release);
         self.signals.future_ready.store(true, Ordering::Release);
+        #[cfg(calloop_verif)]
+        crate::verif::yield_point("run.reset");
 
         while !self.signals.stop.load(Ordering::Acquire) {
+            #[cfg(calloop_verif)]
+            crate::verif::yield_point("run.checked");
             // If the future is ready to be polled, poll it.
+            #[cfg(calloop_verif)]
+            crate::verif::yield_point("bo.swap");
             if self.signals.future_ready.swap(false, Ordering::AcqRel) {
                 // Poll the future and break the loop if it's ready.
                 if let Poll::Ready(result) = future.as_mut().poll(&mut context) {
@@ -808,6 +832,8 @@ impl<'l, Data> EventLoop<'l, Data> {
             self.dispatch_events(None, data)?;
             self.dispatch_idles(data);
             cb(data);
+            #[cfg(calloop_verif)]
+            crate::verif::yield_point("run.iter_end");
         }
 
         Ok(output)
@@ -908,6 +934,8 @@ impl LoopSignal {
     ///
     /// This is only useful if you are using the `EventLoop::run()` method.
     pub fn stop(&self) {
+        #[cfg(calloop_verif)]
+        crate::verif::yield_point("sig.stop");
         self.signal.stop.store(true, Ordering::Release);
     }
 
@@ -918,6 +946,8 @@ impl LoopSignal {
     /// ensures the event loop will terminate quickly if you specified a long
     /// timeout (or no timeout at all) to the `dispatch` or `run` method.
     pub fn wakeup(&self) {
+        #[cfg(calloop_verif)]
+        crate::verif::yield_point("sig.wakeup");
         self.notifier.notify().ok();
     }
 }
